@@ -6,8 +6,13 @@ import FemtoVerif.Model.TrenchProg
 import FemtoVerif.Model.Waveguide
 import FemtoVerif.Model.Gcode
 import FemtoVerif.Model.Sampling
+import FemtoVerif.Model.Writers
 import Mathlib.Tactic.Ring
 import Mathlib.Algebra.Order.Field.Rat
+
+set_option linter.unusedSimpArgs false
+set_option linter.unusedTactic false
+set_option linter.unreachableTactic false
 
 namespace Femto.Gen.C02
 
